@@ -26,8 +26,8 @@ def parseCase (line : String) : Option (Table × List Char) :=
     pure (es, cs)
   | _ => none
 
-def observe (implErr : Bool) (text : List Char) : String :=
-  if implErr || !validText text then "syntax-error" else s!"ok {encChars text}"
+def observe (implErr : Bool) (toks : Toks) (text : List Char) : String :=
+  if implErr || !validToks toks then "syntax-error" else s!"ok {encChars text}"
 
 def runLine (line : String) : String :=
   match parseCase line with
@@ -35,6 +35,6 @@ def runLine (line : String) : String :=
   | some (T, cs) =>
     let (s, done) := run T (fuelFor T cs) (init cs)
     if !done then "FUEL\t-" else
-    observe s.implErr s.text ++ "\t-"
+    observe s.implErr s.toks.reverse s.text ++ "\t-"
 
 def main : IO Unit := YashModel.Proto.mainLoop runLine
